@@ -19,7 +19,7 @@ import (
 )
 
 func init() {
-	pbt.Describe("set: start files heavy in what the setters must cope with (the same path required 2-3 times across lines and blocks, blocks with and without their own comments, unique marker comments on every line, blank-line separators, '// indirect' and '// indirect; text', exclude/retract blocks in random order with go <1.21 / >=1.21 / absent / non-semver go versions) x one of SetRequire, SetRequireSeparateIndirect (go.mod) or SetUse (go.work) with a requested list of distinct paths that partly overlaps the file, with changed versions and flipped indirect flags; Cleanup before and after. Oracle: re-parsed require/use multiset == requested list exactly, in-memory list agrees; every block of the output is sorted under the documented comparator re-implemented here (token-lexical; exclude by path then semantic version from go 1.21; retract descending by low then high); every kept line still has its leading marker and its end-of-line comment is exactly its marker with or without the indirect prefix as requested. separate: files whose only requirement statement is one line or one block with no comments other than indirect markers: after SetRequireSeparateIndirect no require statement mixes direct and indirect requirements. Non-trivial: the start file had a duplicate path or >=2 require/use statements and the request both drops and adds something. Distinct by JSON rendering.",
+	pbt.Describe("set: start files heavy in what the setters must cope with (the same path required 2-3 times across lines and blocks, blocks with and without their own comments, unique marker comments on every line, blank-line separators, '// indirect' and '// indirect; text', exclude/retract blocks in random order with go <1.21 / >=1.21 / absent / non-semver go versions) x one of SetRequire, SetRequireSeparateIndirect (go.mod) or SetUse (go.work) with a requested list of distinct paths that partly overlaps the file, with changed versions and flipped indirect flags; Cleanup before and after. Oracle: re-parsed require/use multiset == requested list exactly, in-memory list agrees; every block of the output is sorted under the documented comparator re-implemented here (token-lexical; exclude by path then semantic version from go 1.21; retract descending by low then high); every kept line still has its leading marker and its end-of-line comment is exactly its marker with or without the indirect prefix as requested. separate: files whose only requirement statement is one line or one block with no comments other than indirect markers: after SetRequireSeparateIndirect no require statement mixes direct and indirect requirements. Non-trivial: the start file had a duplicate path or >=2 require/use statements and the request both drops and adds something. Distinct by JSON rendering. history: the setter is the last of 2-5 operations of one session (setters, AddRequire, AddNewRequire, DropRequire, AddExclude, AddReplace, DropReplace, Cleanup, SortBlocks; go.work: SetUse, AddUse, AddNewUse, DropUse), each generated against what the earlier ones left; same oracle, the comment clause skips lines an earlier operation rewrote. A quarter of the start lines carry no leading comment and a fifth no end-of-line comment; the comments a kept line must carry are taken from the start file.",
 		"the documented comparators are re-implemented with the independent semver model", "Cleanup is called before and after the setter (the property's hedge)")
 }
 
@@ -35,6 +35,20 @@ func genSet(t *rapid.T) modedit.Case {
 	}
 	c := modedit.GenCase(t, work, 1, names)
 	return c
+}
+
+// genHistory: the setter is the last of several edits of one session. Two setters in a row (the first turns a
+// line into a block or moves lines between blocks, the second moves them again) and setters after additions
+// and removals are the sequences the go command itself runs.
+func genHistory(t *rapid.T) modedit.Case {
+	work := rapid.IntRange(0, 3).Draw(t, "work") == 0
+	names := []string{"SetRequire", "SetRequireSeparateIndirect", "SetRequire", "SetRequireSeparateIndirect", "AddRequire", "AddNewRequire", "DropRequire", "Cleanup", "SortBlocks", "AddExclude", "AddReplace", "DropReplace"}
+	last := setters
+	if work {
+		names = []string{"SetUse", "SetUse", "AddUse", "AddNewUse", "DropUse", "Cleanup", "SortBlocks", "AddReplace", "DropReplace"}
+		last = []string{"SetUse"}
+	}
+	return modedit.GenCaseThen(t, work, rapid.IntRange(1, 4).Draw(t, "nbefore"), names, last)
 }
 
 var word = regexp.MustCompile(`[A-Za-z0-9]+`)
@@ -195,20 +209,25 @@ func check(c modedit.Case) pbt.Result {
 	}
 	// kept lines keep their comments; the end-of-line comment changes only by the indirect marker
 	for _, e := range out.Model.ByVerb(verb) {
-		if e.ID == 0 {
-			continue
+		if e.ID == 0 || e.Touched && len(c.Ops) > 2 {
+			continue // (in a history, a line an earlier operation rewrote is that operation's business)
 		}
-		b, s := fmt.Sprintf("B%d", e.ID), c.Start.SuffixOf(e.ID)
+		src, _ := c.Start.LineOf(e.ID)
+		b, s := strings.Join(src.Before, " "), src.Suffix // (some lines are bare: nothing above, nothing after)
 		wantSuffix := s
 		if e.Indirect {
-			wantSuffix = "indirect; " + s
+			wantSuffix = strings.TrimSuffix("indirect; "+s, "; ")
 		}
 		found := false
 		var seenSuffix []string
 		for _, d := range out.Reparsed {
-			if d.Verb == e.Verb && d.Canon == e.Canon() && hasWord(d.Before, b) {
+			carries := d.Verb == e.Verb && d.Canon == e.Canon()
+			for _, m := range src.Before {
+				carries = carries && hasWord(d.Before, m)
+			}
+			if carries {
 				seenSuffix = d.Suffix
-				if len(d.Suffix) == 1 && strings.Join(strings.Fields(d.Suffix[0]), " ") == strings.Join(strings.Fields(wantSuffix), " ") {
+				if len(d.Suffix) == 1 && strings.Join(strings.Fields(d.Suffix[0]), " ") == strings.Join(strings.Fields(wantSuffix), " ") || len(d.Suffix) == 0 && wantSuffix == "" {
 					found = true // (compared up to runs of blanks: the marker may be spelled with other spacing)
 				}
 			}
@@ -373,6 +392,7 @@ func checkSep(c sepCase) pbt.Result {
 
 var subs = []pbt.Sub{
 	pbt.New("set", 10000, 30000, genSet, check),
+	pbt.New("history", 5000, 20000, genHistory, check),
 	pbt.New("separate", 5000, 15000, genSep, checkSep),
 }
 
